@@ -53,6 +53,10 @@ class RawDomain(tables.DDDomain):
             return U32MAX
         if n.endswith("<impl u32>::BITS"):
             return 32
+        if n.endswith("<impl usize>::MAX"):
+            return 2 ** 64 - 1
+        if n.endswith("<impl usize>::BITS"):
+            return 64
         if e.get("trait") == BASE + "Status" or n.startswith(BASE + "Status::"):
             c = self.F.consts.get(self.impl + "::" + (e.get("item") or n.rsplit("::", 1)[-1]))
             if c is not None and "body" in c:
@@ -200,11 +204,18 @@ def read_back(t, free, tomb):
 
 
 def run(ctx, F, rule=RULE, keys=("a", "b", "c", "d")):
+    n = 0
+    for ty in ("u32", "usize"):        # the index-based manager's tables use u32 status words, the pointer-based one's usize
+        n += run_for(ctx, F, rule, keys, ty)
+    return n
+
+
+def run_for(ctx, F, rule, keys, ty):
     impl = next((r["impl"]["id"] for f, r in F.fns.items() if f.startswith(BASE) and (r.get("impl") or {}).get("trait") == BASE + "Status"
-                 and (r.get("impl") or {}).get("self") == "u32"), None)
+                 and (r.get("impl") or {}).get("self") == ty), None)
     fns = {nm: next((f for f in F.hir if f.startswith(BASE) and f.endswith("::" + nm) and "RawTable<" in F.nice(f)), None)
            for nm in ("find", "find_or_find_insert_slot", "insert_in_slot_unchecked", "remove_at_slot_unchecked")}
-    if not ctx.anchor(rule, "RawTable::find / find_or_find_insert_slot / insert_in_slot_unchecked / remove_at_slot_unchecked, Status for u32",
+    if not ctx.anchor(rule, "RawTable::find / find_or_find_insert_slot / insert_in_slot_unchecked / remove_at_slot_unchecked, Status for " + ty,
                       impl is not None and all(fns.values())):
         return 0
 
@@ -282,6 +293,6 @@ def run(ctx, F, rule=RULE, keys=("a", "b", "c", "d")):
                 if not ok:
                     fail("removing %s (slot %d) from %s gives %s %r, table %s (len %r, free %r), expected %s" %
                          (k, w, "".join(slots), st, val, "".join(after), t.len, t.free, "".join(exp)))
-    ctx.ob(rule, rule, not fails, "open-addressing table (%s): %s" % (F.where(fns["find"]), " || ".join(fails[:3]) if fails else
+    ctx.ob(rule, "%s:%s" % (rule, ty), not fails, "open-addressing table with %s status words (%s): %s" % (ty, F.where(fns["find"]), " || ".join(fails[:3]) if fails else
            "find / insert-slot / insert / remove meet their specification from all %d well-formed %d-slot states" % (len(states), N)))
     return n
